@@ -146,6 +146,18 @@ CLAIMED["C15"] = (
     "custom AST analysis: counting-expression agreement, must-facts, per-path-class index expressions (static analysis)",
     "DESIGN.md section 5, C15",
 )
+CLAIMED["C09"] = (
+    "Injectivity by construction plus the untouched clause: AddCyclicMemoryLayout aborts before any mutation if an "
+    "operand already carries a tiled-strided layout; every Stride starts at the running extent and the next update of "
+    "the running extent multiplies it by the same bound (mixed-radix invariant); the only other updates add (..)%c >= 0 "
+    "(sign analysis of ensure_access_granularity); unused dimensions get a unit bound at the running extent; a schedule "
+    "bound becomes a tile bound only when it divides the remaining size; TiledStride.canonicalize merges only under "
+    "inner.step*inner.bound == outer.step and drops only unit bounds. Does not decide `covers exactly the shape` for "
+    "strided (coefficient > 1) accesses nor the granularity values themselves.",
+    WALKER_NOTE,
+    "custom AST dataflow: must-facts per path class, statement-order (typestate) check on the running extent, sign/interval analysis of one helper (static analysis)",
+    "DESIGN.md section 5, C09",
+)
 NOT_APPLICABLE = {
     "C02": "address-stream equality is integer arithmetic over runtime strides/bounds; no structural necessary condition carries weight (DESIGN.md section 5, C02)",
 }
